@@ -107,7 +107,7 @@ def run(prop, tier):
     cases = os.path.join(W, "trees.cases.ndjson")
     n = lib.extract_replay(tout, cases)
     os.remove(tout)
-    require(n >= 5000, "too few trees: %d" % n)
+    require(n >= 40000, "too few trees: %d" % n)
     log("[tlc] %s: %d trees" % (cfg, n))
     ttrace, tsum = os.path.join(W, "trees.trace.ndjson"), os.path.join(W, "trees.summary.json")
     lib.zyconf(["replay-format", cases, ttrace, tsum, tier], timeout=40000)
